@@ -20,7 +20,8 @@ VALUES = [0, 1, -1, 2, -2, 15, 16, 17, -15, -16, -17, 255, 256, 257, -255, -256,
 ARITH = ["+", "-"]
 REL = ["=", "~=", "<", "<=", ">", ">="]
 LOGIC = ["and", "or"]
-CONTEXTS = ["exitarg", "assign", "actual", "return", "condition", "sysarg", "subscript", "nested", "valdecl", "constnest", "constcmp"]
+CONTEXTS = ["exitarg", "assign", "actual", "return", "condition", "sysarg", "subscript", "nested", "valdecl", "constnest", "constcmp",
+            "ifvalue", "whilevalue"]
 
 
 def s32(v):
@@ -130,6 +131,14 @@ def program(e, vals, mode, context, rnd, boolean, eff=None):
     elif context == "condition":
         c = E if boolean else ("bin", "<", E, ("num", 3))
         body = [("if", c, ("sysst", 0, [("num", 11)]), ("sysst", 0, [("num", 22)]))]
+    elif context == "ifvalue":
+        # the value itself decides (any non-zero value takes the first branch), whatever its type
+        body = [("if", E, ("sysst", 0, [("num", 11)]), ("sysst", 0, [("num", 22)]))]
+    elif context == "whilevalue":
+        body = [("ass", ("var", "r"), ("num", 0)),
+                ("while", ("bin", "and", ("bin", "<", ("var", "r"), ("num", 3)), ("bin", "~=", E, ("num", 0))),
+                 ("ass", ("var", "r"), ("bin", "+", ("var", "r"), ("num", 1)))),
+                ("sysst", 0, [("var", "r")])]
     elif context == "sysarg":
         body = [("sysst", 1, [E, ("num", 0)]), ("sysst", 0, [("num", 0)])]
     elif context == "subscript":
